@@ -310,7 +310,16 @@ def opaque_parse_hook(F, entry_of, skip=()):
     def hook(tgt, e, st, args):
         if tgt in entry_of and tgt not in skip and args and isinstance(args[0], SliceV):
             adt = entry_of[tgt]
-            okv = StructV(adt, PARSED, {"data": args[0], "__by": FnV(tgt)})
+            fields = {"data": args[0], "__by": FnV(tgt)}
+            # the view is also reachable under the name the type really gives its byte-slice field (accessors of the
+            # contract value read it through that private name)
+            ad = F.adts.get(adt)
+            if ad and not ad["is_enum"]:
+                for f in ad["variants"][0]["fields"]:
+                    t = F.types[F.strip_ref(f["t"])]
+                    if t["k"] in ("slice", "array") and F.types[t["elem"]]["s"] == "u8":
+                        fields.setdefault(f["name"], args[0])
+            okv = StructV(adt, PARSED, fields)
             erv = StructV("RtcpParseError", ERROR_OF, {"view": args[0], "__by": FnV(tgt)})
             return [(st.clone(), "val", ok(okv)), (st.clone(), "val", err(erv))]
         return None
